@@ -47,6 +47,58 @@ def replay_validation(cfgs):
     return res
 
 
+def replay_split(cfgs):
+    from skmatter.model_selection import train_test_split
+    res = {"agree": 0, "disagree": []}
+    for e in cfgs:
+        n = e["n"]
+        X = np.arange(n * 2).reshape(n, 2)
+        try:
+            with warnings.catch_warnings():
+                warnings.simplefilter("ignore")
+                Xtr, Xte = train_test_split(X, train_size=e["tr"] / 8.0, test_size=e["te"] / 8.0, train_test_overlap=e["overlap"], random_state=1)
+            got = "accept"
+            tr, te = {int(r[0]) for r in Xtr}, {int(r[0]) for r in Xte}
+            ok = (len(Xtr) == e["ntrain"] and len(Xte) == e["ntest"] and len(tr) == len(Xtr) and len(te) == len(Xte)
+                  and tr <= set(X[:, 0].tolist()) and te <= set(X[:, 0].tolist()) and (e["overlap"] or not (tr & te)))
+        except ValueError:
+            got, ok = "reject", True
+        want = "accept" if e["accept"] else "reject"
+        if got == want and ok:
+            res["agree"] += 1
+        else:
+            res["disagree"].append({"config": e, "got": got})
+    return res
+
+
+def replay_pcovr(cfgs):
+    from sklearn.kernel_ridge import KernelRidge
+    from sklearn.linear_model import LinearRegression, Ridge, RidgeCV
+    from skmatter.decomposition import PCovR
+    rng = np.random.default_rng(5)
+    res = {"agree": 0, "disagree": []}
+    for e in cfgs:
+        X = rng.normal(size=(e["n"], e["m"])); X -= X.mean(0)
+        Y = rng.normal(size=(e["n"], 2)); Y -= Y.mean(0)
+        reg = {"none": None, "ridge": Ridge(alpha=0.1, fit_intercept=False), "ridgecv": RidgeCV(alphas=[0.1, 1.0], fit_intercept=False),
+               "lr": LinearRegression(fit_intercept=False), "precomputed": "precomputed", "kernelridge": KernelRidge()}[e["reg"]]
+        try:
+            with warnings.catch_warnings():
+                warnings.simplefilter("ignore")
+                PCovR(mixing=0.5, n_components=e["kk"], svd_solver=e["solver"], space=e["space"], regressor=reg).fit(X, Y)
+            got = "accept"
+        except (ValueError, TypeError):
+            got = "reject"
+        except Exception as ex:  # noqa
+            got = "error:" + type(ex).__name__
+        want = "accept" if e["accept"] else "reject"
+        if got == want:
+            res["agree"] += 1
+        else:
+            res["disagree"].append({"config": e, "got": got})
+    return res
+
+
 def run(tier):
     r = core.run_tlc("Validation.tla", cfg="mc/Validation.cfg", workers=1)
     if r["error"]:
@@ -56,6 +108,16 @@ def run(tier):
     res = replay_validation(cfgs)
     out["validation_decision_table"].update({"replays_agreeing": res["agree"], "replays_disagreeing": len(res["disagree"]),
                                              "disagreements": res["disagree"][:20]})
+    for name, module, fn in (("train_test_split_overlap", "SplitRef", replay_split), ("pcovr_parameter_validation", "PCovRValidation", replay_pcovr)):
+        r2 = core.run_tlc(module + ".tla", cfg="mc/%s.cfg" % module, workers=1)
+        if r2["error"]:
+            raise core.Machinery(module + " model: " + r2["error"])
+        c2 = [e for e in r2["records"] if e.get("k") == "E"]
+        rr = fn(c2)
+        out[name] = {"configurations": len(c2), "replays_agreeing": rr["agree"], "replays_disagreeing": len(rr["disagree"]), "disagreements": rr["disagree"][:20]}
+        print("extras: %s %d configurations: %d agree, %d disagree" % (name, len(c2), rr["agree"], len(rr["disagree"])))
+        for d in rr["disagree"][:6]:
+            print("  DISAGREE", d)
     os.makedirs(core.OUT, exist_ok=True)
     json.dump(out, open(os.path.join(core.OUT, "extras.json"), "w"), indent=1)
     print("extras: validation table %d configurations x 4 classes: %d agree, %d disagree (reported in out/extras.json, not an alarm)"
